@@ -716,7 +716,13 @@ pub fn run_check(sim: &'static dyn Sim, opt: &BatchOptions) -> i32 {
     }
   }
   let triage_started = Instant::now();
+  let mut triaged = 0usize;
   for (sig, list) in &by_sig {
+    triaged += 1;
+    if triaged > 24 {
+      println!("... {} more violation signature(s) not triaged individually (see evidence)", by_sig.len() - 24);
+      break;
+    }
     let (run, out) = &list[0];
     let viol = out.violation.clone().unwrap();
     let tz = sim.tz_of_block(run / block);
@@ -731,8 +737,9 @@ pub fn run_check(sim: &'static dyn Sim, opt: &BatchOptions) -> i32 {
       continue;
     }
     // minimise (bounded), then verify the replay in a fresh process
-    let budget = if triage_started.elapsed() > Duration::from_secs(240) { Duration::from_secs(5) } else { Duration::from_secs(60) };
-    let (min_doc, min_out, execs) = minimise(sim, &doc0, &viol, tz, budget, 400);
+    // the first signatures are minimised thoroughly, later ones briefly, the rest only replay-verified
+    let budget = if triaged > 6 || triage_started.elapsed() > Duration::from_secs(180) { Duration::ZERO } else { Duration::from_secs(40) };
+    let (min_doc, min_out, execs) = if budget.is_zero() { (doc0.clone(), Outcome::default(), 0) } else { minimise(sim, &doc0, &viol, tz, budget, 400) };
     let (final_doc, final_viol) = if let Some(v) = &min_out.violation {
       let mut d = min_doc.clone();
       d["violation"] = v.to_json();
@@ -923,7 +930,13 @@ pub fn replay_main(lookup: impl Fn(&str) -> Option<&'static dyn Sim>, file: &Pat
   };
   let tz = pstr(&doc, "tz").to_string();
   let want = doc.get("violation").and_then(Violation::from_json);
-  let out = exec_isolated(sim, &doc, "replay", 0, if tz.is_empty() { "UTC0" } else { &tz });
+  let tz = if tz.is_empty() { "UTC0".to_string() } else { tz };
+  let mut out = exec_isolated(sim, &doc, "replay", 0, &tz);
+  if out.harness_error.as_deref().map(|e| e.contains("diverged")).unwrap_or(false) {
+    // the recorded schedule belongs to other code than this tree: search the same plan again
+    println!("the recorded schedule does not fit this tree (the code differs from the one it was recorded on); searching the same plan with fresh scheduler seeds");
+    out = exec_isolated(sim, &doc, "fresh", 64, &tz);
+  }
   if let Some(e) = &out.harness_error {
     println!("HARNESS-ERROR {}", e);
     return 2;
